@@ -195,6 +195,10 @@ impl SharedMmap {
             data,
             matches!(self.storage, StorageImpl::Mmap(_)),
         );
+        #[cfg(walrus_verif)]
+        if let Some(e) = crate::wal::verif::take_store_error() {
+            return Err(e);
+        }
         self.storage.write(offset, data)?;
         #[cfg(walrus_verif)]
         crate::wal::verif::after_store();
